@@ -23,6 +23,9 @@ import (
 
 const modPath = "github.com/goblimey/go-ntrip"
 
+// verifDirForNormalize is set by main before loading.
+var verifDirForNormalize = "/verif"
+
 // Prog is the resolved program.
 type Prog struct {
 	Repo    string
@@ -35,6 +38,7 @@ type Prog struct {
 	vtacg   *callgraph.Graph
 	allFns  map[*ssa.Function]bool
 	modFns  []*ssa.Function // every source function of the module (incl. anonymous), sorted
+	NormalizeLog []string
 	fnDecl  map[*ssa.Function]*ast.FuncDecl
 	Overlay map[string][]byte
 }
@@ -99,14 +103,151 @@ func LoadProg(dir string, overlay map[string][]byte) (*Prog, error) {
 		return nil, fmt.Errorf("load: no packages of module %s", modPath)
 	}
 	p.Fset = pkgs[0].Fset
-	prog, spkgs := ssautil.AllPackages(pkgs, ssa.InstantiateGenerics)
+	// ---- normalisation: inline newly extracted helpers (normalize.go), re-type-check
+	type override struct {
+		files []*ast.File
+		info  *types.Info
+		tp    *types.Package
+	}
+	over := map[string]*override{}
+	imp := map[string]*types.Package{}
+	packages.Visit(pkgs, nil, func(pk *packages.Package) {
+		if pk.Types != nil {
+			imp[pk.PkgPath] = pk.Types
+		}
+	})
+	known := loadKnownFuncs(verifDirForNormalize)
+	if known != nil && os.Getenv("VERIF_NOINLINE") == "" {
+		// dependency order among module packages
+		var order []*packages.Package
+		seenP := map[string]bool{}
+		var visit func(pk *packages.Package)
+		visit = func(pk *packages.Package) {
+			if seenP[pk.PkgPath] {
+				return
+			}
+			seenP[pk.PkgPath] = true
+			var ips []string
+			for ip := range pk.Imports {
+				ips = append(ips, ip)
+			}
+			sort.Strings(ips)
+			for _, ip := range ips {
+				if d, ok := p.ByPath[ip]; ok {
+					visit(d)
+				}
+			}
+			order = append(order, pk)
+		}
+		for _, pk := range p.Pkgs {
+			visit(pk)
+		}
+		replaced := map[string]bool{}
+		for _, pk := range order {
+			depChanged := false
+			for ip := range pk.Imports {
+				if replaced[ip] {
+					depChanged = true
+				}
+			}
+			view := &pkgView{Fset: pk.Fset, Syntax: pk.Syntax, TypesInfo: pk.TypesInfo, Types: pk.Types}
+			total := 0
+			var orig []*ast.File
+			for round := 0; round < 4; round++ {
+				if round == 0 {
+					for _, f := range pk.Syntax {
+						orig = append(orig, cloneAST(f).(*ast.File))
+					}
+				}
+				n, log := normalizePackage(view, known[rel(pk.PkgPath)])
+				if n == 0 {
+					break
+				}
+				tp2, info2, err := recheck(pk.PkgPath, pk.Fset, view.Syntax, imp, pk.TypesSizes)
+				if err != nil {
+					// the transformation did not type-check: use the package unchanged
+					p.NormalizeLog = append(p.NormalizeLog, fmt.Sprintf("%s: inlining abandoned (%v)", rel(pk.PkgPath), err))
+					view.Syntax = orig
+					total = 0
+					tp3, info3, err3 := recheck(pk.PkgPath, pk.Fset, orig, imp, pk.TypesSizes)
+					if err3 != nil {
+						return nil, fmt.Errorf("load: re-check of %s failed: %v", pk.PkgPath, err3)
+					}
+					view.Types, view.TypesInfo = tp3, info3
+					depChanged = false
+					total = -1
+					break
+				}
+				total += n
+				p.NormalizeLog = append(p.NormalizeLog, log...)
+				view.Types, view.TypesInfo = tp2, info2
+			}
+			if total > 0 {
+				// drop helpers that are no longer referenced (all their call sites were expanded)
+				elig := newInliner(view, known[rel(pk.PkgPath)]).eligible
+				usedF := map[types.Object]bool{}
+				for _, o := range view.TypesInfo.Uses {
+					usedF[o] = true
+				}
+				removed := false
+				for _, f := range view.Syntax {
+					var keep []ast.Decl
+					for _, d := range f.Decls {
+						if fd, ok := d.(*ast.FuncDecl); ok {
+							if obj, _ := view.TypesInfo.Defs[fd.Name].(*types.Func); obj != nil && elig[obj] && !usedF[obj] {
+								removed = true
+								continue
+							}
+						}
+						keep = append(keep, d)
+					}
+					f.Decls = keep
+				}
+				if removed {
+					if tp2, info2, err := recheck(pk.PkgPath, pk.Fset, view.Syntax, imp, pk.TypesSizes); err == nil {
+						view.Types, view.TypesInfo = tp2, info2
+					} else {
+						// unused imports etc.: keep the helpers
+						p.NormalizeLog = append(p.NormalizeLog, fmt.Sprintf("%s: helpers kept (%v)", rel(pk.PkgPath), err))
+						return nil, fmt.Errorf("load: removing inlined helpers of %s broke the package: %v", pk.PkgPath, err)
+					}
+				}
+			}
+			if total == 0 && depChanged {
+				tp2, info2, err := recheck(pk.PkgPath, pk.Fset, view.Syntax, imp, pk.TypesSizes)
+				if err != nil {
+					return nil, fmt.Errorf("load: re-check of %s against normalised dependencies failed: %v", pk.PkgPath, err)
+				}
+				view.Types, view.TypesInfo = tp2, info2
+				total = -1
+			}
+			if total != 0 {
+				over[pk.PkgPath] = &override{view.Syntax, view.TypesInfo, view.Types}
+				imp[pk.PkgPath] = view.Types
+				replaced[pk.PkgPath] = true
+			}
+		}
+	}
+	prog := ssa.NewProgram(p.Fset, ssa.InstantiateGenerics)
+	created := map[string]*ssa.Package{}
+	packages.Visit(pkgs, nil, func(pk *packages.Package) {
+		if pk.Types == nil || pk.IllTyped {
+			return
+		}
+		files, info, tp := pk.Syntax, pk.TypesInfo, pk.Types
+		if o := over[pk.PkgPath]; o != nil {
+			files, info, tp = o.files, o.info, o.tp
+		}
+		if info == nil {
+			files = nil
+		}
+		created[pk.PkgPath] = prog.CreatePackage(tp, files, info, true)
+	})
 	prog.Build()
 	p.SSA = prog
-	for i, pk := range pkgs {
-		if spkgs[i] != nil {
-			if _, ok := p.ByPath[pk.PkgPath]; ok {
-				p.SSAPkg[pk.PkgPath] = spkgs[i]
-			}
+	for path := range p.ByPath {
+		if sp := created[path]; sp != nil {
+			p.SSAPkg[path] = sp
 		}
 	}
 	p.allFns = ssautil.AllFunctions(prog)
